@@ -305,6 +305,8 @@ var families = map[string]weights{
 	"bigsnap":  {deliver: 35, reply: 35, fail: 8, dup: 3, tick: 4, election: 4, heartbeat: 8, submit: 8, read: 1, snapshot: 6, crash: 1, restart: 3},
 	"timed":    {deliver: 30, reply: 40, fail: 6, dup: 2, tick: 6, election: 8, heartbeat: 8, submit: 8, read: 8, crash: 1, restart: 3},
 	"member":   {deliver: 35, reply: 35, fail: 3, dup: 1, tick: 4, election: 4, heartbeat: 6, submit: 6, read: 2, member: 4, crash: 1, restart: 3},
+	// membership changes that stay pending: lossy network, frequent elections, snapshots and crashes in between
+	"memberx": {deliver: 20, reply: 15, fail: 10, dup: 3, tick: 8, election: 10, heartbeat: 6, submit: 5, read: 1, member: 8, snapshot: 4, crash: 1, restart: 3, crashin: 1},
 }
 
 func (x *run) nextLabel(w weights) string {
@@ -444,7 +446,7 @@ func main() {
 	traces := flag.Int("traces", 10, "number of traces")
 	steps := flag.Int("steps", 150, "labels per trace")
 	out := flag.String("out", "cosim.trace", "trace file")
-	fam := flag.String("families", "normal,lossy,delay,crash,snapshot,timed,bigsnap,member", "scenario families")
+	fam := flag.String("families", "normal,lossy,delay,crash,snapshot,timed,bigsnap,member,memberx", "scenario families")
 	replay := flag.String("replay", "", "replay the labels of this trace file instead of generating")
 	one := flag.Int("one", -1, "child mode: generate only trace number N")
 	workers := flag.Int("workers", 8, "parallel child processes")
@@ -497,7 +499,7 @@ func main() {
 			ids = append(ids, strconv.Itoa(i))
 		}
 		spare := 0
-		if family == "member" {
+		if family == "member" || family == "memberx" {
 			spare = 1
 		}
 		x := newRun(w, r, fmt.Sprintf("%s/t%d", root, t), ids, spare, family, hist)
@@ -684,6 +686,10 @@ func (x *run) actOn(n string) bool {
 	}
 	x.payload++
 	opts = append(opts, fmt.Sprintf("SUBMIT %s 0 %d", n, x.payload), "ELECTION "+n)
+	if families[x.family].snapshot > 0 {
+		// the crash point may fall between the storage writes of takeSnapshot
+		opts = append(opts, "SNAPSHOT "+n, "SNAPSHOT "+n)
+	}
 	return x.do(x.pick(opts))
 }
 
